@@ -707,10 +707,10 @@ def check_single(chk, case):
                         w = oracle_point(p, row["pts"][k], row["vals"][k], bnd, f"node {k} (nominal {qx:.2f},{qy:.2f} beyond the "
                                          f"last cell + os/2 of a {win}x{hin} tensor, os {os_})")
                         if w:
-                            g = row["pts"][k]
-                            cap = (1.0 + (0.8 if case["refine"] == "integral" else 0.0)) * 2 * bnd
-                            capped = g is not None and max(abs(g[0] - p[0]), abs(g[1] - p[1])) <= cap + TOL
-                            (why_band if capped else why).append(w)    # F-C02d covers less than one cell (+ border bias)
+                            # routed to F-C02d only if the answer is EXACTLY the model's (the last cell's centre,
+                            # + the measured zero-padded offset under integral refinement): `not bad1` below; the
+                            # predicted error is then the distance from the keypoint to that cell
+                            (why_band if row["pts"][k] is not None else why).append(w)
                         continue
                     if case["refine"] == "integral":
                         cx, cy, _, dlt = channel_peak(row["cms"][k], "integral")
@@ -729,9 +729,9 @@ def check_single(chk, case):
                             w = oracle_point(p, row["pts"][k], row["vals"][k], bnd, f"node {k} (cell {cx},{cy} of "
                                              f"{row['cms'][k].shape[1]}x{row['cms'][k].shape[0]})")
                             if w:
-                                g = row["pts"][k]
-                                capped = g is not None and max(abs(g[0] - p[0]), abs(g[1] - p[1])) <= 3 * bnd + TOL
-                                (why_border if capped else why).append(w)   # F-C02b covers at most 1.5 cells of error (½ quantisation + ≤ 1 border bias)
+                                # routed to F-C02b only if the answer is EXACTLY what the zero-padded regression
+                                # predicts (impl == model with the harness's own zero-padded offset: `not bad1` below)
+                                (why_border if row["pts"][k] is not None else why).append(w)
                             continue
                 w = oracle_point(p, row["pts"][k], row["vals"][k], bnd, f"node {k}")
                 if w:
@@ -743,6 +743,7 @@ def check_single(chk, case):
                 chk.fail("C02: in-image keypoint beyond the last grid cell + half a stride is returned more than half a cell off: "
                          + "; ".join(why_band[:2]), {**small, "frame": [fr.video, fr.frame_idx]}, row["pts"], [SIG_BAND])
             if bad1:
+                why += why_border + why_band      # the answer is not the model's: nothing is excused
                 if as_coded:
                     chk.fail("C02: LabelsReader frame not resized but decode divides by input_scale: "
                              + "; ".join(why[:2]), {**small, "frame": [fr.video, fr.frame_idx]},
@@ -971,9 +972,7 @@ def check_topdown(chk, case, providers=("LabelsReader", "VideoReader")):
                             chk.tag("integral_patch_crosses_border_sampled")
                             w = oracle_point(p, r["pts"][k], r["vals"][k], bnd, f"node {k} (crop cell {cx},{cy})")
                             if w:
-                                g = r["pts"][k]
-                                capped = g is not None and max(abs(g[0] - p[0]), abs(g[1] - p[1])) <= 3 * bnd + TOL
-                                (why_border if capped else why).append(w)   # F-C02b covers at most 1.5 cells of error (½ quantisation + ≤ 1 border bias)
+                                (why_border if r["pts"][k] is not None else why).append(w)   # routed only if impl == model (`not bad`)
                             continue
                 w = oracle_point(p, r["pts"][k], r["vals"][k], bnd, f"node {k}")
                 if w:
@@ -982,12 +981,13 @@ def check_topdown(chk, case, providers=("LabelsReader", "VideoReader")):
                     # the crop falls outside the crop actually taken; covered only while the keypoint is still
                     # returned and the error stays below one centroid cell + half an instance cell
                     g = r["pts"][k] if p is not None else None
-                    cap_c = os_c / (case["sc"] * eff) + bnd
-                    if (p is not None and cborder and not in_impl and g is not None
-                            and max(abs(g[0] - p[0]), abs(g[1] - p[1])) <= cap_c + TOL):
-                        why_cborder.append(w)
+                    if p is not None and cborder and not in_impl and g is not None:
+                        why_cborder.append(w)      # routed only if impl == model (measured zero-padded δc): `not bad`
                     else:
                         why.append(w)
+            if bad:
+                why += why_border + why_cborder   # the answer is not the model's: nothing is excused
+                why_border, why_cborder = [], []
             if why_cborder and not bad:
                 chk.fail("C02: centroid-stage integral refinement at the centroid map's border displaces the crop; a keypoint "
                          "of the animal leaves it: " + "; ".join(why_cborder[:2]),
